@@ -215,7 +215,7 @@ func (e *Env) judgeC11(o *scen.Outcome, t *report.Tally, feat string, sampled *a
 			if len(wc) > 0 && wr == g[i] {
 				all := true
 				for _, l := range wc {
-					if gotCommentsEarly(of, l) == 0 {
+					if l != "//" && gotCommentsEarly(of, l) == 0 { // a bare "//" is gofmt's separator in front of directives
 						all = false
 					}
 				}
